@@ -25,6 +25,12 @@ static ALLOC: CountingAlloc = CountingAlloc;
 // script
 // ---------------------------------------------------------------------------------------------
 
+thread_local! {
+    /// header to echo instead of the script's (a constructor that learns the effective item order sets it)
+    static HEAD_OVERRIDE: std::cell::RefCell<Option<String>> = const { std::cell::RefCell::new(None) };
+}
+
+#[derive(Clone)]
 struct Case {
     head: String,
     comp: String,
@@ -34,6 +40,9 @@ struct Case {
 }
 
 impl Case {
+    fn id(&self) -> &str {
+        self.head.split_whitespace().nth(1).unwrap_or("0")
+    }
     fn get(&self, k: &str) -> Option<&str> {
         self.params.get(k).map(|s| s.as_str())
     }
@@ -404,6 +413,9 @@ fn ent_mut<K: KeyKind>(o: Option<(&K, &mut TV)>, w: u64) -> String {
 impl<K: KeyKind, E: OnEvictCallback + Clone, S: BuildHasher + Clone> Comp for RawComp<K, E, S> {
     fn op(&mut self, op: &str, sa: &[&str]) -> Option<String> {
         let a = nums(sa);
+        if op == "innercaps" {
+            return Some(format!("caps={}", self.c.cap()));
+        }
         if let Some(r) = cache_op::<K, _>(&mut self.c, op, &a) {
             return Some(r);
         }
@@ -524,6 +536,11 @@ fn slru_dump<K: KeyKind, S: BuildHasher>(c: &SegmentedCache<K, TV, S, S>) -> Str
 impl<K: KeyKind, S: BuildHasher + Clone> Comp for SlruComp<K, S> {
     fn op(&mut self, op: &str, sa: &[&str]) -> Option<String> {
         let a = nums(sa);
+        if op == "innercaps" {
+            // the capacities the lists really have (not what the accessors report)
+            let (p, q) = self.c.verif_segments();
+            return Some(format!("caps={},{}", p.cap(), q.cap()));
+        }
         if let Some(r) = cache_op::<K, _>(&mut self.c, op, &a) {
             return Some(r);
         }
@@ -601,6 +618,10 @@ struct TwoQComp<K: KeyKind, S: BuildHasher> {
 impl<K: KeyKind, S: BuildHasher> Comp for TwoQComp<K, S> {
     fn op(&mut self, op: &str, sa: &[&str]) -> Option<String> {
         let a = nums(sa);
+        if op == "innercaps" {
+            let (r, f, g, _) = self.c.verif_lists();
+            return Some(format!("caps={},{},{}", r.cap(), f.cap(), g.cap()));
+        }
         if let Some(r) = cache_op::<K, _>(&mut self.c, op, &a) {
             return Some(r);
         }
@@ -682,6 +703,10 @@ struct ArcComp<K: KeyKind, S: BuildHasher> {
 impl<K: KeyKind, S: BuildHasher> Comp for ArcComp<K, S> {
     fn op(&mut self, op: &str, sa: &[&str]) -> Option<String> {
         let a = nums(sa);
+        if op == "innercaps" {
+            let (t1, b1, t2, b2) = self.c.verif_lists();
+            return Some(format!("caps={},{},{},{}", t1.cap(), t2.cap(), b1.cap(), b2.cap()));
+        }
         if let Some(r) = cache_op::<K, _>(&mut self.c, op, &a) {
             return Some(r);
         }
@@ -900,6 +925,11 @@ struct WtComp<K: KeyKind, S: BuildHasher> {
 impl<K: KeyKind, S: BuildHasher + Clone> Comp for WtComp<K, S> {
     fn op(&mut self, op: &str, sa: &[&str]) -> Option<String> {
         let a = nums(sa);
+        if op == "innercaps" {
+            let (w, m, _) = self.c.verif_parts();
+            let (p, q) = m.verif_segments();
+            return Some(format!("caps={},{},{}", w.cap(), p.cap(), q.cap()));
+        }
         if let Some(r) = cache_op::<K, _>(&mut self.c, op, &a) {
             return Some(r);
         }
@@ -1023,6 +1053,83 @@ impl Comp for SamComp {
 }
 
 
+
+// ---------------------------------------------------------------------------------------------
+// RawLRU with a ZERO-SIZED value type (`vals=zst`): code specialised on `size_of::<V>()` / on the value layout shows only
+// here. The script writes value 0 everywhere, so the ordinary rawlru model applies unchanged.
+// ---------------------------------------------------------------------------------------------
+
+struct RawZstComp {
+    c: RawLRU<u64, ()>,
+}
+fn zpr(r: &caches::PutResult<u64, ()>) -> String {
+    match r {
+        caches::PutResult::Put => "Put".into(),
+        caches::PutResult::Update(_) => "Update(0)".into(),
+        caches::PutResult::Evicted { key, .. } => format!("Evicted({}:0)", key),
+        caches::PutResult::EvictedAndUpdate { evicted, .. } => format!("EvictedAndUpdate({}:0,0)", evicted.0),
+    }
+}
+impl Comp for RawZstComp {
+    fn op(&mut self, op: &str, sa: &[&str]) -> Option<String> {
+        let a = nums(sa);
+        let c = &mut self.c;
+        let optv = |o: Option<()>| fmt_optv(o.map(|_| 0));
+        let opte = |o: Option<(u64, ())>| fmt_opte(o.map(|(k, _)| (k, 0)));
+        Some(match (op, &a[..]) {
+            ("put", [k, _]) => zpr(&c.put(*k, ())),
+            ("get", [k]) => optv(c.get(k).copied()),
+            ("getmut", [k, _]) => optv(c.get_mut(k).map(|_| ())),
+            ("peek", [k]) => optv(c.peek(k).copied()),
+            ("peekmut", [k, _]) => optv(c.peek_mut(k).map(|_| ())),
+            ("contains", [k]) => format!("{}", c.contains(k)),
+            ("remove", [k]) => optv(c.remove(k)),
+            ("removeres", [k]) => {
+                if c.contains(k) {
+                    optv(c.remove(k))
+                } else {
+                    "skip".into()
+                }
+            }
+            ("purge", []) => {
+                c.purge();
+                "()".into()
+            }
+            ("len", []) => format!("{}", c.len()),
+            ("cap", []) => format!("{}", c.cap()),
+            ("isempty", []) => format!("{}", c.is_empty()),
+            ("resize", [n]) => format!("{}", c.resize(*n as usize)),
+            ("getlru", []) => opte(c.get_lru().map(|(k, _)| (*k, ()))),
+            ("getmru", []) => opte(c.get_mru().map(|(k, _)| (*k, ()))),
+            ("peeklru", []) => opte(c.peek_lru().map(|(k, _)| (*k, ()))),
+            ("peekmru", []) => opte(c.peek_mru().map(|(k, _)| (*k, ()))),
+            ("removelru", []) => opte(c.remove_lru()),
+            ("peekorput", [k, _]) => {
+                let (cur, r) = c.peek_or_put(*k, ());
+                format!("({}, {})", fmt_optv(cur.map(|_| 0)), r.as_ref().map(zpr).unwrap_or_else(|| "none".into()))
+            }
+            ("containsorput", [k, _]) => {
+                let (b, r) = c.contains_or_put(*k, ());
+                format!("({}, {})", b, r.as_ref().map(zpr).unwrap_or_else(|| "none".into()))
+            }
+            _ => return None,
+        })
+    }
+    fn dump(&self) -> String {
+        let items: Vec<(u64, u64)> = self.c.iter().map(|(k, _)| (*k, 0)).collect();
+        format!("cap={} {}", self.c.cap(), fmt_list(&items))
+    }
+    fn try_clone(&self) -> Option<Self> {
+        Some(RawZstComp { c: self.c.clone() })
+    }
+    fn clone_into(&self, dst: &mut Self) -> bool {
+        dst.c.clone_from(&self.c);
+        true
+    }
+    fn sizes(&self) -> Option<String> {
+        Some(format!("{},{},{}", self.c.len(), self.c.cap(), self.c.is_empty()))
+    }
+}
 
 // ---------------------------------------------------------------------------------------------
 // PutResult itself: the hand-written `PartialEq` and `Clone`
@@ -1150,7 +1257,11 @@ fn drive<C: Comp>(
                 writeln!(out, "{} => err {}", case.head, e).unwrap();
             }
             Ok(Ok(main)) => {
-                writeln!(out, "{} => ok", case.head).unwrap();
+                match HEAD_OVERRIDE.with(|h| h.borrow_mut().take()) {
+                    // (dropped right here: the override was allocated inside the tracked region)
+                    Some(head) => writeln!(out, "{} => ok", head).unwrap(),
+                    None => writeln!(out, "{} => ok", case.head).unwrap(),
+                }
                 for e in main.env() {
                     writeln!(out, "{}", e).unwrap();
                 }
@@ -1332,6 +1443,14 @@ fn hasher_of(case: &Case) -> VH {
 fn run_keyed<K: KeyKind>(case: &Case, out: &mut impl Write) {
     let default_hasher = case.get("hasher").unwrap_or("default") == "default";
     match case.comp.as_str() {
+        "rawlru" if case.get("vals") == Some("zst") => {
+            let cap = case.num("cap") as usize;
+            drive(
+                || RawLRU::<u64, ()>::new(cap).map(|c| RawZstComp { c }).map_err(|e| errname(&format!("{:?}", e))),
+                case,
+                out,
+            )
+        }
         "rawlru" => {
             let cap = case.num("cap") as usize;
             let cb = case.num("cb") == 1;
@@ -1387,6 +1506,67 @@ fn run_keyed<K: KeyKind>(case: &Case, out: &mut impl Write) {
                     })
                     .collect(),
             };
+            // `src=`: which collection the cache is built from (every `From` impl of the crate). A set of pairs may hold one
+            // key twice with different values; hash-ordered collections are iterated once on a clone to learn the order, and
+            // the header echoed to the model carries the items in that effective order
+            let src = case.get("src").unwrap_or("vec").to_string();
+            if src != "vec" {
+                let cid = case.id().to_string();
+                return drive(
+                    || {
+                        #[allow(unused_imports)]
+                        use std::collections::{BTreeMap, BTreeSet, BinaryHeap, HashMap, HashSet, LinkedList, VecDeque};
+                        let pairs = || items.iter().map(|(k, v)| (*k, TV::new(*v)));
+                        let order_of = |it: Vec<(u64, u64)>| -> String {
+                            if it.is_empty() {
+                                "-".into()
+                            } else {
+                                it.iter().map(|(k, v)| format!("{}:{}", k, v)).collect::<Vec<_>>().join(",")
+                            }
+                        };
+                        let (order, c): (String, RawLRU<u64, TV>) = match src.as_str() {
+                            "deque" => {
+                                let col: VecDeque<(u64, TV)> = pairs().collect();
+                                (order_of(col.iter().map(|(k, v)| (*k, v.n)).collect()), RawLRU::from(col))
+                            }
+                            "list" => {
+                                let col: LinkedList<(u64, TV)> = pairs().collect();
+                                (order_of(col.iter().map(|(k, v)| (*k, v.n)).collect()), RawLRU::from(col))
+                            }
+                            "heap" => {
+                                let col: BinaryHeap<(u64, TV)> = pairs().collect();
+                                (order_of(col.clone().into_iter().map(|(k, v)| (k, v.n)).collect()), RawLRU::from(col))
+                            }
+                            #[cfg(not(feature = "nostd"))]
+                            "hashset" => {
+                                let col: HashSet<(u64, TV)> = pairs().collect();
+                                (order_of(col.iter().map(|(k, v)| (*k, v.n)).collect()), RawLRU::from(col))
+                            }
+                            "btreeset" => {
+                                let col: BTreeSet<(u64, TV)> = pairs().collect();
+                                (order_of(col.iter().map(|(k, v)| (*k, v.n)).collect()), RawLRU::from(col))
+                            }
+                            #[cfg(not(feature = "nostd"))]
+                            "hashmap" => {
+                                let col: HashMap<u64, TV> = pairs().collect();
+                                (order_of(col.iter().map(|(k, v)| (*k, v.n)).collect()), RawLRU::from(col))
+                            }
+                            _ => {
+                                let col: BTreeMap<u64, TV> = pairs().collect();
+                                (order_of(col.iter().map(|(k, v)| (*k, v.n)).collect()), RawLRU::from(col))
+                            }
+                        };
+                        // a collection always reports its exact length: the sized path of `from_iter`
+                        let n = if order == "-" { 0 } else { order.split(',').count() };
+                        HEAD_OVERRIDE.with(|h| {
+                            *h.borrow_mut() = Some(format!("case {} rawfrom hint={} items={} keys=u64 src={}", cid, n, order, src))
+                        });
+                        Ok(RawComp::<u64, caches::DefaultEvictCallback, caches::DefaultHashBuilder> { c, cb: false })
+                    },
+                    case,
+                    out,
+                );
+            }
             drive(
                 || {
                     let v: Vec<(K, TV)> = items.iter().map(|(k, v)| (K::mk(*k), TV::new(*v))).collect();
